@@ -13,6 +13,19 @@ ROOT = os.path.dirname(os.path.dirname(os.path.abspath(__file__)))
 CAT = json.load(open(os.path.join(ROOT, "mutants", "catalog.json")))
 
 
+RESULTS = os.path.join(ROOT, "mutants", "results.json")
+
+
+def record(name, prop, rc, sig, tier):
+    try:
+        d = json.load(open(RESULTS))
+    except Exception:
+        d = {}
+    d["%s|%s" % (name, prop)] = dict(mutant=name, check=prop, tier=tier, rc=rc, signature=sig,
+                                     verdict={0: "MISSED", 1: "caught", 2: "inconclusive"}.get(rc, str(rc)))
+    json.dump(d, open(RESULTS, "w"), indent=1, sort_keys=True)
+
+
 def run_one(name, tier="quick"):
     m = CAT[name]
     sname = "mut-%d" % os.getpid()
@@ -45,6 +58,7 @@ def run_one(name, tier="quick"):
                     sig = line.split("signature=", 1)[1].split()[0]
                     break
             res[p] = (r.returncode, sig)
+            record(name, p, r.returncode, sig, tier)
             print("MUTANT %-40s prop=%s rc=%d sig=%s wall=%.0fs" % (name, p, r.returncode, sig, time.time() - t0), flush=True)
             if r.returncode not in (0, 1):
                 print(r.stdout[-3000:])
